@@ -346,6 +346,14 @@ def c01_reduce(R):
                 continue
             c = calls[0]
             f0 = dotted(c.args[0]) or ""
+            a0 = c.args[0]
+            if isinstance(a0, ast.Lambda) and len(a0.args.args) == 2 and isinstance(a0.body, ast.BinOp):
+                pa, pb = (a.arg for a in a0.args.args)
+                sym = {ast.Add: "__add__", ast.Sub: "__sub__", ast.Mult: "__mul__", ast.BitAnd: "__and__", ast.BitOr: "__or__", ast.BitXor: "__xor__"}.get(type(a0.body.op))
+                if sym and isinstance(a0.body.left, ast.Name) and isinstance(a0.body.right, ast.Name) and (a0.body.left.id, a0.body.right.id) == (pa, pb):
+                    f0 = f"operator.{sym}"
+            if not f0.startswith("operator."):
+                continue  # folds with something that is not a python operator (a domain method): not this rule's claim
             want = {"And": "__and__", "Or": "__or__", "Xor": "__xor__"}.get(op, op)
             R.check(
                 f0 == f"operator.{want}",
